@@ -1,13 +1,16 @@
 """C05 - Query, SQL and result caches are transparent."""
 import json
 import vlib, c01_lib as L, c01_harness as H, c05_harness as H5
+from py2coq import c05flags
 from vlib import Corr, Search, Failure
 
 ID = 'C05'
 LEVEL = 'proof'
 PROPS = ['Props/C05.v', 'Findings/C05.v']
-GEN = []
+GEN = [('Gen/C05Flags.v', c05flags.generate)]
 TRUSTED = [
+    'Tie A: tools/py2coq/c05flags.py reads from pony/orm/core.py on every run whether Query._aggregate flushes before its query_results lookup and whether '
+    'Database.execute clears query_results (Gen/C05Flags.v); the session model used by the correspondence run takes these two flags from the source',
     'READ-SET HYPOTHESIS (assumed about pony/orm/sqltranslation.py, not proved): the translator produced for (code key, vartypes, parameter values) depends on the '
     'parameter values only through the keys it records in translator.fixed_param_values (string slice / index bounds, getattr names). It is a hypothesis of '
     'C05_translator / C05_sqlkey_sound; the search attacks it (same query text re-used with different values and types, warm vs cold)',
@@ -62,9 +65,10 @@ def pidx(name):
     return int(name[1:])
 
 
-OPTS = {'all': ['fetch', None, None], 'count': ['aggregate', 'COUNT'], 'exists': ['fetch', 1, None], 'limit2': ['fetch', 2, None]}
+OPTS = {'all': ['fetch', None, None], 'count': ['aggregate', 'COUNT'], 'exists': ['fetch', 1, None], 'limit2': ['fetch', 2, None],
+        'first': ['order_by(1)', 'fetch', 1, None], 'page': ['order_by(1)', 'fetch', 2, 0]}
 EVENT = {'Hit': 0, 'Miss': 1, 'Replaced': 2}
-SIMPLE_HOWS = ('all', 'count', 'exists', 'limit2')      # one translator lookup and one SQL cache lookup per execution
+SIMPLE_HOWS = ('all', 'count', 'exists', 'limit2', 'first', 'page')   # the first translator lookup is the one under the query's own key
 
 
 def cz(n): return vlib.cz(n)
@@ -93,7 +97,7 @@ def encode(history, warm, cold):
                 t_req.append((qid, vt, vals))
                 ev = w['translator_events']
                 t_obs.append((tid_i(w['translator_id']), sorted((pidx(k), val_i([tname(v), v])) for k, v in w['fixed']),
-                              EVENT.get(ev[0], 9) if len(ev) == 1 else 9))
+                              EVENT.get(ev[0], 9) if len(ev) >= 1 else 9))
                 s_keys.append(sk_i([qid, vt, fixed, OPTS[how]]))
                 sev = w['sql_events']
                 s_obs.append(sev == ['Hit'] if sev in (['Hit'], ['Miss']) else None)
